@@ -13,6 +13,8 @@ def _cspec(r, forms):
         e = r.choice(gen.ERROR_FORMS)
         if e != "default":
             c["error"] = e
+        if r.random() < 0.15:
+            c["callform"] = r.choice(["partial", "object"])
     return c
 
 
